@@ -208,7 +208,7 @@ func (b *backend) pathImportCertChainWrite(ctx context.Context, req *logical.Req
 		}
 	}
 
-	if err := logical.EndTxStorage(ctx, req); err != nil {
+	if err := b.endPolicyTxStorage(ctx, req, name); err != nil {
 		return nil, err
 	}
 
